@@ -696,7 +696,9 @@ char *qstr_comma_number(int number) {
         return NULL;
 
     char buf[10 + 1], *bufp;
-    snprintf(buf, sizeof(buf), "%d", abs(number));
+    unsigned int absnum = (number < 0) ? 0U - (unsigned int) number
+                                       : (unsigned int) number;
+    snprintf(buf, sizeof(buf), "%u", absnum);
 
     if (number < 0)
         *strp++ = '-';
